@@ -13,6 +13,9 @@ import json
 import os
 import re
 
+import time
+
+import vcheck
 from vcheck import coq_list, coq_Z, coq_string
 
 PID = "C19"
@@ -53,6 +56,15 @@ def arg_to_coq(I, a):
     return "AN %s" % coq_Z(a["n"])
 
 
+def dbo_to_coq(I, d):
+    els = coq_list(["{| e_timeout := %s; e_move_to := %s |}" % (I.s(e["timeout"]), I.s(e["move_to"])) for e in d["ttl_policy"]])
+    return "{| o_cluster := %s; o_ttl_policy := %s; o_ttl_days := %s; o_storage_policy := %s |}" % (
+        I.s(d["cluster"]), els, coq_Z(d["ttl_days"]), I.s(d["policy"]))
+
+
+EMPTY_CFG = '{| cluster := ""; distributed := false; days := []; drop_days := 0; storage_policy := "" |}'
+
+
 def run_to_coq(I, r):
     f = "None" if r["fault"] is None else "(Some (%d%%nat, %s))" % (r["fault"]["at"], b(r["fault"]["eff"]))
     log = coq_list(["{| o_q := %s; o_sql := %s; o_args := %s; o_ok := %s |}" % (
@@ -61,8 +73,20 @@ def run_to_coq(I, r):
     ttl = coq_list([I.s(tb[t]["ttl"]) for t in TABLES])
     pol = coq_list([I.s(tb[t]["policy"]) for t in TABLES])
     sett = coq_list(["(%s, %s)" % (coq_Z(x["fp"]), I.s(x["value"])) for x in r["state"]["settings"]])
-    return ("{| r_cfg := %s; r_fault := %s; r_log := %s; r_err := %s; r_ttl := %s; r_policy := %s; r_settings := %s |}"
-            % (cfg_to_coq(I, r["cfg"]), f, log, b(r["err"]), ttl, pol, sett))
+    g = r.get("glue")
+    if g is None:
+        kind, parse, cfg = "KDirect", "[]", cfg_to_coq(I, r["cfg"])
+    else:
+        cfg = EMPTY_CFG
+        parse = coq_list(["(%s, %s)" % (I.s(x["s"]), ("Some %s" % coq_Z(x["ns"])) if x["ok"] else "None") for x in g["parsed"]])
+        dbos = coq_list([dbo_to_coq(I, d) for d in g["dbos"]])
+        if g["kind"] == "env":
+            env = coq_list(["(%s, %s)" % (I.s(kv["k"]), I.s(kv["v"])) for kv in g["env"]])
+            kind = "(KEnv %s %s %s %s)" % (env, dbos, b(g["env_err"]), coq_list([dbo_to_coq(I, d) for d in g["env_out"]]))
+        else:
+            kind = "(KAll %s)" % dbos
+    return ("{| r_cfg := %s; r_fault := %s; r_kind := %s; r_parse := %s; r_log := %s; r_err := %s; r_ttl := %s; r_policy := %s; r_settings := %s |}"
+            % (cfg, f, kind, parse, log, b(r["err"]), ttl, pol, sett))
 
 
 def case_to_coq(I, c):
@@ -77,7 +101,7 @@ def case_to_coq(I, c):
 def eval_cases(ck, name, cases):
     I = Interner()
     body = ";\n  ".join(case_to_coq(I, c) for c in cases)
-    txt = ("From Coq Require Import List ZArith Bool String Ascii.\nFrom Qryn Require Import model.Rotate model.RotateObs.\n"
+    txt = ("From Coq Require Import List ZArith Bool String Ascii.\nFrom Qryn Require Import model.Rotate model.RotateCfg model.RotateObs.\n"
            "Import ListNotations.\nOpen Scope string_scope.\nOpen Scope Z_scope.\n" +
            "\n".join(I.defs) + "\n"
            "Definition cases : list case := [\n  " + body + "].\n"
@@ -101,17 +125,25 @@ def case_size(c):
     return (len(c["runs"]), sum(len(r["log"]) for r in c["runs"]), sum(len(r["cfg"]["days"]) for r in c["runs"]))
 
 
+def strip_run(r):
+    out = {"cfg": r["cfg"], "fault": r["fault"]}
+    if r.get("glue") is not None:
+        g = r["glue"]
+        out["glue"] = {"kind": g["kind"], "dbos": g["dbos"], "env": g.get("env") or []}
+    return out
+
+
 def strip_obs(c):
     """the input part of a case (what --cases needs)"""
     return {"id": c["id"], "class": c.get("class", ""), "init": c.get("init") or [],
             "init_tables": c.get("init_tables") or [],
-            "runs": [{"cfg": r["cfg"], "fault": r["fault"]} for r in c["runs"]]}
+            "runs": [strip_run(r) for r in c["runs"]]}
 
 
 def summarize(c):
     out = []
     for r in c["runs"]:
-        out.append({"cfg": r["cfg"], "fault": r["fault"], "err": r["err"], "calls": len(r["log"]),
+        out.append({"cfg": r["cfg"], "glue": r.get("glue"), "fault": r["fault"], "err": r["err"], "calls": len(r["log"]),
                     "alters": sum(1 for o in r["log"] if o["sql"].startswith("ALTER")),
                     "log": [(o["sql"] if not o["sql"].startswith("SELECT") else "SELECT <setting>", o["args"], o["ok"]) for o in r["log"]],
                     "tables_after": r["state"]["tables"]})
@@ -145,7 +177,39 @@ def shrink(ck, c, pred):
                     if rr["cfg"] == r["cfg"] and j < len(rr["cfg"]["days"]):
                         rr["cfg"] = dict(rr["cfg"], days=[p for k, p in enumerate(rr["cfg"]["days"]) if k != j])
                 cands.append(d)
-        for cand in cands[:24]:
+        for i, r in enumerate(best["runs"]):
+            if r["fault"] is not None:
+                d = strip_obs(best)
+                d["runs"][i]["fault"] = None
+                cands.append(d)
+        for i, r in enumerate(best["runs"]):
+            g = r.get("glue")
+            if not g:
+                continue
+            same = lambda rr: rr.get("glue") is not None and rr["glue"]["dbos"] == g["dbos"] and rr["glue"].get("env") == g.get("env")
+            if len(g["dbos"]) > 1:
+                for k in range(len(g["dbos"])):
+                    d = strip_obs(best)
+                    for rr in d["runs"]:
+                        if same(rr):
+                            rr["glue"] = dict(rr["glue"], dbos=[x for m, x in enumerate(rr["glue"]["dbos"]) if m != k])
+                    cands.append(d)
+            for k, dbo in enumerate(g["dbos"]):
+                for j in range(len(dbo["ttl_policy"])):
+                    d = strip_obs(best)
+                    for rr in d["runs"]:
+                        if same(rr):
+                            nd = [dict(x) for x in rr["glue"]["dbos"]]
+                            nd[k]["ttl_policy"] = [e for m, e in enumerate(nd[k]["ttl_policy"]) if m != j]
+                            rr["glue"] = dict(rr["glue"], dbos=nd)
+                    cands.append(d)
+            for j in range(len(g.get("env") or [])):
+                d = strip_obs(best)
+                for rr in d["runs"]:
+                    if same(rr):
+                        rr["glue"] = dict(rr["glue"], env=[e for m, e in enumerate(rr["glue"]["env"]) if m != j])
+                cands.append(d)
+        for cand in cands[:40]:
             got = rerun(cand)
             if got is None:
                 continue
@@ -159,8 +223,91 @@ def shrink(ck, c, pred):
     return best
 
 
+GLUE_HEADER = """// Code generated by checks/c19.py from %(repo)s -- verbatim copies, DO NOT EDIT.
+package main
+
+import (
+	"fmt"
+	"os"
+	"strconv"
+	"strings"
+	"time"
+
+	clconfig "github.com/metrico/cloki-config"
+	"github.com/metrico/cloki-config/config"
+	"github.com/metrico/qryn/ctrl/logger"
+	qmaint "github.com/metrico/qryn/ctrl/qryn/maintenance"
+	maintenance "verif/harness/gluemaint"
+)
+
+var _ = fmt.Sprint
+var _ = os.Getenv
+var _ = strconv.Atoi
+var _ = strings.SplitN
+var _ = time.Second
+var _ *clconfig.ClokiConfig
+var _ config.ClokiBaseDataBase
+var _ logger.ILogger
+var _ = maintenance.ConnectV2
+
+const glueGenerated = true
+
+// the names the copied bodies refer to inside package maintenance
+type RotatePolicy = qmaint.RotatePolicy
+
+var Rotate = qmaint.Rotate
+
+"""
+
+
+def extract_func(src, name):
+    """the text of top-level `func name(` up to its closing brace at column 0 (gofmt layout)"""
+    m = re.search(r"^func %s\(" % re.escape(name), src, re.M)
+    if not m:
+        return None
+    end = src.find("\n}\n", m.start())
+    if end < 0:
+        return None
+    return src[m.start():end + 3]
+
+
+def build_rotate(ck):
+    """go build of harness/cmd/rotate with glue_gen.go replaced (overlay) by verbatim copies of rotateDB, RotateAll
+    (ctrl/qryn/maintenance/maintain.go) and boolEnv, portCHEnv (main.go) of the repository under test"""
+    parts, missing = [], []
+    for rel, names in (("ctrl/qryn/maintenance/maintain.go", ["rotateDB", "RotateAll"]), ("main.go", ["boolEnv", "portCHEnv"])):
+        src = open(os.path.join(vcheck.REPO, rel)).read()
+        for n in names:
+            t = extract_func(src, n)
+            if t is None:
+                missing.append("%s: func %s" % (rel, n))
+            else:
+                parts.append("// ---- %s: func %s\n%s" % (rel, n, t))
+    if missing:
+        ck.obligation("glue functions found in the repository (rotateDB, RotateAll, boolEnv, portCHEnv)", False, "; ".join(missing))
+        return False
+    gdir = os.path.join(vcheck.BUILD, "gen", vcheck.repo_tag())
+    os.makedirs(gdir, exist_ok=True)
+    gen = os.path.join(gdir, "rotate_glue_gen.go")
+    txt = GLUE_HEADER % {"repo": vcheck.REPO} + "\n".join(parts)
+    if not os.path.exists(gen) or open(gen).read() != txt:
+        open(gen, "w").write(txt)
+    ov = os.path.join(gdir, "rotate_overlay.json")
+    open(ov, "w").write(json.dumps({"Replace": {os.path.join(vcheck.HARNESS, "cmd", "rotate", "glue_gen.go"): gen}}))
+    t = time.time()
+    with vcheck.Lock("gomod"):
+        vcheck.ensure_harness_module()
+    rc, out = vcheck.sh(["go", "build", "-modfile=" + vcheck.modfile(), "-overlay=" + ov, "-tags", "verif", "-o",
+                         vcheck.bin_path("rotate"), "./cmd/rotate"], cwd=vcheck.HARNESS, env=vcheck.go_env(), timeout=1200)
+    ck.log("go build rotate (+ %d glue functions copied from the repository) rc=%d (%.1fs)" % (len(parts), rc, time.time() - t))
+    ck.build_out = out
+    if rc != 0:
+        ck.log(out[-3000:])
+    return rc == 0
+
+
 def run_rotate(ck):
-    if not ck.go_build("rotate"):
+    if not build_rotate(ck):
         ck.obligation("harness rotate builds against the repository", False, ck.build_out[-1500:])
         return
     cases = []
@@ -262,6 +409,23 @@ def run_rotate(ck):
                 if ns % 10**9 != 0:
                     k += "+fraction"
                 dur[k] = dur.get(k, 0) + 1
+    glue = {"timeouts_parsed": 0, "timeouts_refused": 0, "blank_elements": 0, "runs_all": 0, "runs_env": 0, "env_refused": 0,
+            "runs_with_several_databases": 0, "samples_days_texts": {}}
+    for c in cases:
+        for r in c["runs"]:
+            g = r.get("glue")
+            if not g:
+                continue
+            glue["runs_env" if g["kind"] == "env" else "runs_all"] += 1
+            glue["env_refused"] += 1 if g.get("env_err") else 0
+            glue["runs_with_several_databases"] += 1 if len(g["dbos"]) > 1 else 0
+            for x in g["parsed"]:
+                glue["timeouts_parsed" if x["ok"] else "timeouts_refused"] += 1
+            glue["blank_elements"] += sum(1 for d in g["dbos"] for e in d["ttl_policy"] if e["timeout"] == "" and e["move_to"] == "")
+            for kv in g.get("env") or []:
+                if kv["k"] == "SAMPLES_DAYS":
+                    glue["samples_days_texts"][kv["v"]] = glue["samples_days_texts"].get(kv["v"], 0) + 1
+    glue["samples_days_texts"] = len(glue["samples_days_texts"])
     ck.coverage["evaluations"] += len(cases)
     ck.coverage["distinct_nontrivial"] += len(distinct)
     ck.coverage["rule"] += ("histories of 1..6 Rotate runs on one database: random configurations (0-3 tiers, durations 1 s .. 292 years incl. "
@@ -270,7 +434,7 @@ def run_rotate(ck):
                             "settings layouts; non-trivial = >= 2 runs and >= 1 ALTER; distinct by content. ")
     ck.extra["input_distribution"] = {"classes": hist, "runs": nruns, "runs_ended_by_fault": nfault,
                                       "logged_calls": sum(case_size(c)[1] for c in cases),
-                                      "tier_durations": dur,
+                                      "tier_durations": dur, "glue": glue,
                                       "with_storage_policy": sum(1 for c in cases for r in c["runs"] if r["cfg"]["policy"]),
                                       "clustered": sum(1 for c in cases for r in c["runs"] if r["cfg"]["cluster"])}
     ck.add_samples([{"class": c["class"], "runs": [{"cfg": r["cfg"], "fault": r["fault"], "err": r["err"], "calls": len(r["log"])}
